@@ -798,6 +798,12 @@ def evaluate(ctx, res):
                 if sk not in site_cache:
                     site_cache[sk] = mention_sites(peg.rules[rule][1], x)
                 sites = site_cache[sk]
+                want_ch = [ch for _, ch in sites]
+                got_ch = type_leaves(ty)
+                if want_ch != got_ch:
+                    # e.g. `Option<Option<&x>>` (`S(N)`) where the mention sits under ONE optional layer: shown on this input
+                    ctx.violation("accessor result is wrapped differently than the positions of the mentions require (Option / Vec / tuple per mention)",
+                                  c, getter=x, structured=stx, chains_of_result_type=got_ch, chains_expected=want_ch, oracle="SLOTS")
                 if slots is not None and len(slots) != len(sites):
                     ctx.violation("number of reference slots in the return type differs from the number of mentions outside negative predicates",
                                   c, getter=x, slots=len(slots), mentions=len(sites))
